@@ -864,8 +864,8 @@ func hasResponseField(v reflect.Value) bool {
 }
 
 var (
-	decodeFieldRe = regexp.MustCompile(`decode field "([^"]+)"`)
-	whereFieldRe  = regexp.MustCompile(`(?:differs|difference) at ((?:\.[A-Za-z0-9_]+)+)`)
+	decodeFieldRe = regexp.MustCompile(`(?:field|query:) "([^"]+)"`)
+	whereFieldRe  = regexp.MustCompile(`(?:differs|difference) at ((?:\.[A-Za-z0-9_]+(?:\[[0-9]+\])*)+)`)
 )
 
 func alnumLower(s string) string {
@@ -900,7 +900,7 @@ func explainFromDoc(f *vk.Finding, doc specgen.Doc, opName string) *vk.Finding {
 		return f
 	}
 	switch f.Classifier {
-	case "silent-change", "core-value-not-delivered":
+	case "silent-change", "core-value-not-delivered", "conv-float-precision10":
 		count := map[string]int{}
 		for _, p := range op.Params {
 			if p.In != "query" || p.Content != "" {
@@ -916,20 +916,25 @@ func explainFromDoc(f *vk.Finding, doc specgen.Doc, opName string) *vk.Finding {
 				count[alnumLower(p.Name)]++
 			}
 		}
-		member := ""
-		if m := decodeFieldRe.FindStringSubmatch(f.What); m != nil && f.Classifier == "core-value-not-delivered" {
-			member = alnumLower(m[1])
-		} else if m := whereFieldRe.FindStringSubmatch(f.What); m != nil && f.Classifier == "silent-change" {
-			parts := strings.Split(strings.TrimPrefix(m[1], "."), ".")
-			for _, pt := range parts[1:] {
+		// the names on the way to the place that differs / fails to decode (the parameter itself or a
+		// member of it): one of them must be a name that two pairs of the query string share
+		var names []string
+		if f.Classifier == "core-value-not-delivered" {
+			for _, m := range decodeFieldRe.FindAllStringSubmatch(f.What, -1) {
+				names = append(names, alnumLower(m[1]))
+			}
+		} else if m := whereFieldRe.FindStringSubmatch(f.What); m != nil {
+			for _, pt := range strings.Split(strings.TrimPrefix(m[1], "."), ".") {
+				pt, _, _ = strings.Cut(pt, "[")
 				if pt != "Value" {
-					member = alnumLower(pt)
-					break
+					names = append(names, alnumLower(pt))
 				}
 			}
 		}
-		if member != "" && count[member] >= 2 {
-			return vk.F("exploded-query-objects-share-member-name", "%s", f.What)
+		for _, n := range names {
+			if count[n] >= 2 {
+				return vk.F("exploded-query-objects-share-member-name", "%s", f.What)
+			}
 		}
 	case "response-silent-change":
 		m := whereFieldRe.FindStringSubmatch(f.What)
